@@ -1,7 +1,7 @@
 (* Props/C11.v — C11: the Clafer export denotes exactly the model's configurations.
    [cl_sem] is Clafer's group / cardinality semantics on the exported hierarchy (children of a clafer
-   with a group cardinality default to 0..1 and are counted by the group; otherwise 1..1 unless
-   marked ?); identifiers are the safe-named feature names, [lift σ] reads a selection through them. *)
+   with a group cardinality other than the default 0..* default to 0..1 and are counted by the group;
+   otherwise 1..1 unless marked ? — the writer marks the members of a [0..*] group); identifiers are the safe-named feature names, [lift σ] reads a selection through them. *)
 From Coq Require Import List Bool String ZArith.
 From FM Require Import Base.Result Base.AstOp Model.Ast Model.FM Model.Queries Model.Sem Format.Export
      Proofs.C18Facts Proofs.C11Facts.
